@@ -147,7 +147,7 @@ def file_route(rec, data, r):
             rec.count("file-route:load")
         else:
             from suit_generator import cmd_parse
-            dst = drive.fresh(wd, ".json")
+            dst = drive.fresh_out(wd, ".json")
             try:
                 cmd_parse.main(src, dst, "json", False)
             finally:
